@@ -189,6 +189,7 @@ class MKID(Detector):
         detector.pixel.update(data.get("pixel"))
         detector.signal.update(data.get("signal"))
         detector.image.update(data.get("image"))
+        detector.phase.update(data.get("phase"))
 
         if "data" in data:
             detector._data = xr.DataTree.from_dict(
